@@ -25,7 +25,7 @@ for f in glob.glob(work + "/shard-*.json"):
         key = (fl.get("fs", ""), fl.get("op", fl.get("fn", "")), fl.get("expected", ""), fl.get("observed", ""), fl.get("mode", ""))
         g = groups.setdefault(key, [0, v["detail"], set()])
         g[0] += 1
-        g[2].add((fl.get("a", ""), fl.get("b", ""), fl.get("rel", ""), fl.get("params", "")))
+        g[2].add((fl.get("a", ""), fl.get("b", ""), fl.get("rel", ""), fl.get("params", ""), fl.get('c1',''), fl.get('c2',''), fl.get('cl',''), fl.get('ce',''), fl.get('special','')))
     for x in (s.get("inconclusive") or [])[:5]:
         print("INCONCLUSIVE", x[:300])
 for k, g in sorted(groups.items()):
